@@ -187,6 +187,26 @@ def main(argv=None):
             nob = len([o for o in r["obligations"] if not o.get("canary")])
             nd = len([o for o in r["obligations"] if not o.get("canary") and o["verdict"] == "unsat"])
             print(f"[{prop}] task {t}: {nd}/{nob} discharged, {len(r['errors'])} errors, {r['wall_s']}s", flush=True)
+    # second chance for anything undecided (solver `unknown` / timeout / dead worker): the task is re-run alone, when the machine is quiet,
+    # with a 5x budget; a verdict must never flip because 16 cores were busy.  `sat` / `unsat` answers are never retried.
+    def _shaky(r):
+        return any(o["verdict"] not in ("unsat", "sat") for o in r["obligations"]) or any("worker died" in e["error"] or "task crashed" in e["error"] for e in r["errors"])
+    retry = [r["task"] for r in results if _shaky(r)][:6]
+    if retry:
+        os.environ["VERIF_BUDGET_SCALE"] = str(5 * float(os.environ.get("VERIF_BUDGET_SCALE", "1")))
+        with cf.ProcessPoolExecutor(max_workers=2, mp_context=ctx) as ex:
+            futs = {ex.submit(run_task, prop, t, tier, seed): t for t in retry}
+            for f in cf.as_completed(futs):
+                t = futs[f]
+                try:
+                    r2 = f.result()
+                except Exception:
+                    continue
+                if not _shaky(r2) or len([o for o in r2["obligations"] if o["verdict"] == "unsat"]) >= len(
+                        [o for o in next(r for r in results if r["task"] == t)["obligations"] if o["verdict"] == "unsat"]):
+                    r2["retried"] = True
+                    results = [r for r in results if r["task"] != t] + [r2]
+                    print(f"[{prop}] task {t}: retried with 5x budget, {len([o for o in r2['obligations'] if o['verdict'] not in ('unsat', 'sat')])} undecided left", flush=True)
     results.sort(key=lambda r: r["task"])
     return finish(prop, tier, seed, mod, results, time.time() - t0, a)
 
